@@ -571,6 +571,42 @@ pub fn run(tier: Tier) -> i32 {
             }
         });
     }
+    // the target is a label that the macro body defines itself, referred to in another letter case
+    // (every kind; forward and backward inside the body; the macro is expanded once)
+    let n_inner = AtomicU64::new(0);
+    {
+        let iw: Vec<(usize, i64, bool)> = (0..kinds.len()).flat_map(|ki| [0i64, 2, 30].into_iter().flat_map(move |b| [false, true].into_iter().map(move |fw| (ki, b, fw)))).collect();
+        iw.par_iter().for_each(|(ki, body, forward)| {
+            let k = &kinds[*ki];
+            let instr = |target: &str| match k.s {
+                Some(s) => format!("{} {}, {}", k.mnem, s, target),
+                None => format!("{} {}", k.mnem, target),
+            };
+            let nops = "nop\n".repeat(*body as usize);
+            // definition `Inner_Lq`, references `INNER_LQ` / `inner_lq`
+            let (src, site, target) = if *forward {
+                (format!("nop\n.macro in_m\n{}\n{}Inner_Lq: nop\n.endm\nin_m\nnop\n", instr("INNER_LQ"), nops), 1i64, 2 + body)
+            } else {
+                (format!("nop\n.macro in_m\nInner_Lq: nop\n{}{}\n.endm\nin_m\nnop\n", nops, instr("inner_lq")), 2 + body, 1i64)
+            };
+            let d = target - (site + 1);
+            let o = sut::build_str(&src);
+            evals.fetch_add(1, Ordering::Relaxed);
+            n_inner.fetch_add(1, Ordering::Relaxed);
+            let bad = match &o {
+                Outcome::Ok(b) => {
+                    let w = b.code.get(site as usize * 2).copied().unwrap_or(0) as u16 | (b.code.get(site as usize * 2 + 1).copied().unwrap_or(0) as u16) << 8;
+                    let dec = isa::decode(Core::Full, w, None);
+                    let ok = dec.as_ref().map(|x| isa::canonical(k.mnem, &x.ops).0 == isa::canonical(x.mnem, &x.ops).0 && matches!(x.ops.last(), Some(Opnd::Imm(v)) if *v == d)).unwrap_or(false);
+                    if ok { None } else { Some(format!("the word at {} is {:04x} = {:?}, displacement {} expected", site, w, dec.map(|x| (x.mnem, x.ops)), d)) }
+                }
+                other => Some(format!("the target is {} words away and defined in the body, but: {}", d, other.brief())),
+            };
+            if let Some(what) = bad {
+                rep.violation(&format!("C03/label-of-the-macro-body-in-another-letter-case/kind={}", k.mnem), || what, || json!({"kind": "build_str", "source": src, "observed": o.to_json()}));
+            }
+        });
+    }
     // the target is a .set variable that captures the position (`.set top = pc`), assigned again by
     // every expansion of a loop macro: each branch goes back to its own loop top
     let n_setloop = AtomicU64::new(0);
